@@ -1,4 +1,5 @@
-(* Model of rxsci/container/json.py (dump, load, dump_to_file, load_from_file with lines=True).
+(* Model of rxsci/container/json.py (dump, load, dump_to_file, load_from_file with lines=True, and with
+   lines=False on a file that holds ONE document: load_doc_from_file at the end of the Section).
    orjson, the text codec (rs.data.encode/decode, C17) and the compression stage (C16) are NOT modelled
    here: they enter as Section variables.  The rxsci logic modelled: one text item per object with the
    newline appended, the stage order, file.write = append / file.read(size) = a re-chunking (buffered file:
@@ -12,10 +13,17 @@
                                   ignore_error, in which case None is returned
              dump_to_file: dump | rs.data.encode(encoding) | [compress] | file.write(mode='wb')
              load_from_file: file.read(mode='rb', size=64*1024) | [decompress] | rs.data.decode(encoding)
-                             | line.unframe() | load(skip, ignore_error) *)
+                             | line.unframe() | load(skip, ignore_error)
+             load_from_file(lines=False): file.read(mode='rb', size=-1) | [decompress] | rs.data.decode(encoding)
+                             | load(skip, ignore_error)         (no unframe: every text item is parsed as it is) *)
 From Coq Require Import List Arith Bool ZArith NArith.
 From RxVerif Require Import Framing.Line Container.Parquet.
 Import ListNotations.
+
+(* the items of a chunk sequence that are not empty (b'' / '' items are delivered by the flush of the
+   compression stage and of the incremental codec at completion; load filters them: len(i) > 0) *)
+Definition drop_empty {A : Type} (l : list (list A)) : list (list A) :=
+  filter (fun c => negb (length c =? 0)) l.
 
 Section JsonLines.
 Variable Obj : Type.                         (* JSON values *)
@@ -83,7 +91,31 @@ Definition load_chunks (skip : nat) (ignore_error : bool) (r : list (list Byte))
   end.
 Definition load_from_file (size skip : nat) (ignore_error : bool) (f : list Byte) : list Obj * bool :=
   load_chunks skip ignore_error (file_read size f).
+
+(* ---- lines=False ----
+   file.read(size=-1):  data = f.read(-1)
+                        while not disposed and len(data) > 0:  observer.on_next(data); data = f.read(-1)
+   f.read(-1) gives everything up to the end of the data, so the WHOLE file is delivered as ONE chunk (no
+   chunk at all when the file is empty).  Over a raw stream (io.RawIOBase) read(-1) is readall(): it calls
+   read(buf) - buf = io.DEFAULT_BUFFER_SIZE - until a call delivers nothing and returns the concatenation.
+   There is no line.unframe in this mode: every text item that comes out of decode is handed to load as it
+   is, so the document is only parsed correctly when it arrives in one piece. *)
+Definition file_read_all (f : list Byte) : list (list Byte) := match f with [] => [] | _ => [f] end.
+Definition raw_readall (buf : nat) (caps : list nat) (f : list Byte) : list Byte := concat (raw_read buf caps f).
+Definition load_doc_chunks (skip : nat) (ignore_error : bool) (r : list (list Byte)) : list Obj * bool :=
+  match decompress r with
+  | None => ([], false)
+  | Some bs => match decode bs with
+               | None => ([], false)
+               | Some cs => json_load skip ignore_error cs
+               end
+  end.
+Definition load_doc_from_file (skip : nat) (ignore_error : bool) (f : list Byte) : list Obj * bool :=
+  load_doc_chunks skip ignore_error (file_read_all f).
 End JsonLines.
+
+(* size-level abstraction of file_read_all (tied to it by JsonLinesProofs.file_read_all_sizes) *)
+Definition doc_read_sizes (fsize : N) : list N := if (fsize =? 0)%N then [] else [fsize].
 
 (* ---- length-level abstraction of line.unframe: a text chunk is represented by the lengths of the
    pieces str.split('\n') cuts it into; used for big files (tied to Framing.Line by
